@@ -514,7 +514,10 @@ fn parse_token(
                     Some(group_index) => group_index == left_index,
                 };
 
-                let stop = my_priority < their_priority || my_priority == their_priority && right_to_left;
+                // a unary suffix operation is complete, it can only become the left operand of what follows
+                let left_is_complete = n.secondary_definition == SecondaryDefinition::UnarySuffix;
+
+                let stop = (my_priority < their_priority || my_priority == their_priority && right_to_left) && !left_is_complete;
 
                 // need to find node with higher priority and stop before it
                 if stop || is_our_group {
@@ -691,7 +694,9 @@ fn setup_space_list_check(
 
                 let is_value = left_node.definition.is_value_like();
                 let is_group_value = left_node.definition.is_group_like() && last_left != current_group;
-                if is_value || is_group_value {
+                // result of a unary suffix operation is a value as well
+                let is_suffix_value = left_node.secondary_definition == SecondaryDefinition::UnarySuffix;
+                if is_value || is_group_value || is_suffix_value {
                     trace!(
                         "Value-like definition {:?} found. Will check next token for value-like to make list",
                         left_node.definition
